@@ -4,6 +4,8 @@ import numpy as np
 import gen
 from common import Driver, f2b, b2f
 
+REGEN = ("constants", "registry", "layoutsrc")
+
 COORD_TOL = 1e-4     # one epoch: model (float32 rounding at stores) vs kernel (fastmath float32)
 TRAJ_TOL = 2e-3      # several epochs
 
@@ -89,6 +91,8 @@ def run(ctx):
     import umap.utils as Ut
     import umap.umap_ as U
     rng = ctx.rng
+    import srcval
+    srcval.validate_layout(ctx, 300 if ctx.thorough else 60, rng)
     ctx.rule = ("(i) tau_rand_int on random int64 states (negative and > 2^32 included) vs the BitVec-64 model, exactly; "
                 "(ii) the sequential kernel _nb_optimize_layout_euclidean_single_epoch on random graphs (1-3 dims, separate / aliased "
                 "buffers, both move_other, dyadic and general weights), whole state after every epoch vs Sgd.epoch: clocks and RNG exactly, "
